@@ -89,7 +89,38 @@ class JitModule:
         return tensor_cdefs.cast(f"int32_t (*)({', '.join(['void *'] * n_params)})", addr)
 
 
-def make_cffi_tensor(spec: cdrv.TensorSpec, keep: list):
+class GuardedBlock:
+    """A block whose last byte is the last byte of a page followed by a PROT_NONE page: a read or
+    write past its end faults (the guard-page array of DESIGN sec. 3/C06 for JIT code)."""
+
+    PAGE = 4096
+
+    def __init__(self, nbytes):
+        import ctypes
+        import mmap as _mmap
+
+        libc = ctypes.CDLL(None, use_errno=True)
+        libc.mmap.restype = ctypes.c_void_p
+        libc.mmap.argtypes = [ctypes.c_void_p, ctypes.c_size_t, ctypes.c_int, ctypes.c_int, ctypes.c_int, ctypes.c_long]
+        libc.mprotect.argtypes = [ctypes.c_void_p, ctypes.c_size_t, ctypes.c_int]
+        libc.munmap.argtypes = [ctypes.c_void_p, ctypes.c_size_t]
+        pages = (nbytes + self.PAGE - 1) // self.PAGE + 1
+        self.size = (pages + 1) * self.PAGE
+        base = libc.mmap(None, self.size, _mmap.PROT_READ | _mmap.PROT_WRITE, _mmap.MAP_PRIVATE | _mmap.MAP_ANONYMOUS, -1, 0)
+        if base in (None, ctypes.c_void_p(-1).value):
+            raise MemoryError("mmap failed")
+        self.base = base
+        self.libc = libc
+        guard = base + pages * self.PAGE
+        if libc.mprotect(guard, self.PAGE, 0) != 0:
+            raise MemoryError("mprotect failed")
+        self.addr = guard - nbytes
+
+    def close(self):
+        self.libc.munmap(self.base, self.size)
+
+
+def make_cffi_tensor(spec: cdrv.TensorSpec, keep: list, guard=False):
     """A cffi taco_tensor_t* from a TensorSpec without tensora's validation (the random IR programs
     use arbitrary int arrays as 'crd')."""
     from tensora.compile import allocate_taco_structure, tensor_cdefs as ffi
@@ -101,13 +132,29 @@ def make_cffi_tensor(spec: cdrv.TensorSpec, keep: list):
             if m == "s":
                 pos, crd = spec.indices[l]
                 p = ffi.new("int32_t[]", list(pos) if len(pos) else 1)
-                c = ffi.new("int32_t[]", list(crd) if len(crd) else 1)
-                keep += [p, c]
+                keep.append(p)
                 idx[l][0] = p
+                if guard and len(crd):
+                    g = GuardedBlock(4 * len(crd))
+                    keep.append(g)
+                    c = ffi.cast("int32_t*", g.addr)
+                    for i, x in enumerate(crd):
+                        c[i] = int(x)
+                else:
+                    c = ffi.new("int32_t[]", list(crd) if len(crd) else 1)
+                    keep.append(c)
                 idx[l][1] = c
-        v = ffi.new("double[]", [float(x) for x in spec.vals] if len(spec.vals) else 1)
-        keep.append(v)
-        t.vals = ffi.cast("double*", v)
+        if guard and len(spec.vals):
+            g = GuardedBlock(8 * len(spec.vals))
+            keep.append(g)
+            v = ffi.cast("double*", g.addr)
+            for i, x in enumerate(spec.vals):
+                v[i] = float(x)
+            t.vals = v
+        else:
+            v = ffi.new("double[]", [float(x) for x in spec.vals] if len(spec.vals) else 1)
+            keep.append(v)
+            t.vals = ffi.cast("double*", v)
     keep.append(t)
     return t
 
@@ -136,12 +183,12 @@ def read_described_cffi(t):
     return out
 
 
-def jit_run(jm: JitModule, specs, calls, revalues=None):
+def jit_run(jm: JitModule, specs, calls, revalues=None, guard=False):
     """Run `calls` in order on fresh cffi tensors; -> list of {fn, ret, inputs_unchanged, tensor}."""
     from tensora.compile import take_ownership_of_arrays, tensor_cdefs as ffi
 
     keep = []
-    tensors = [make_cffi_tensor(s, keep) for s in specs]
+    tensors = [make_cffi_tensor(s, keep, guard) for s in specs]
     out_i = [i for i, s in enumerate(specs) if s.role == "output"][0]
     results = []
     revalues = revalues or {}
@@ -164,6 +211,9 @@ def jit_run(jm: JitModule, specs, calls, revalues=None):
         take_ownership_of_arrays(tensors[out_i])
     except Exception:  # noqa: BLE001
         pass
+    for k in keep:
+        if isinstance(k, GuardedBlock):
+            k.close()
     return results
 
 
